@@ -173,3 +173,47 @@ Definition model_select (b : bindings) (t : nametest) (attrs : bool) (d : tree) 
   let c := m_ctx_of b in
   let l := model_doc d in
   if m_test_ok c t || negb (m_has_nodes attrs l) then Some (m_select_from c t attrs 0 l) else None.
+
+(** ** attribute-list declarations (after /repo commit bf629dc, D67)
+
+    info [XmlElement::declaration_att_defs]: the definitions of every attribute-list declaration whose
+    name equals the element's raw qualified name ([equal_qname]), merged; a definition whose name is already
+    present is dropped (first definition binding). *)
+Definition m_att_defs (d : nsdtd) (x : elem) : list nsdef :=
+  fold_left (fun defs a =>
+               if qname_eqb (nd_elem a) (el_name x)
+               then if existsb (fun v => attname_eqb (nd_name v) (nd_name a)) defs then defs else defs ++ [a]
+               else defs) d [].
+
+(** info [HasQName/Element::namespace_attributes]: the declaration attributes written on the element, then,
+    for every definition that [is_namespace_declaration], whose default is a [Value(..)] (["v"] or
+    [#FIXED "v"]) and whose name is not among the items, an attribute built from the declaration *)
+Definition m_namespace_attributes (d : nsdtd) (x : elem) : list nsdecl :=
+  fold_left (fun items a =>
+               match nd_name a, default_of (nd_default a) with
+               | ANDecl p, Some v => if existsb (fun it => prefix_eqb (fst it) p) items then items else items ++ [(p, v)]
+               | _, _ => items
+               end) (m_att_defs d x) (el_decls x).
+
+(** info [Element::attributes]: the written attributes that are no declarations, then every definition that
+    is not [#IMPLIED] (a [#REQUIRED] one included: listed finding D36 of C11), no namespace declaration and
+    not among the items *)
+Definition m_is_implied (k : nsdefault) : bool := match k with NDImplied => true | _ => false end.
+Definition m_attributes (d : nsdtd) (x : elem) : list qname :=
+  fold_left (fun items a =>
+               match nd_name a with
+               | ANAttr q => if m_is_implied (nd_default a) then items
+                             else if existsb (qname_eqb q) items then items else items ++ [q]
+               | ANDecl _ => items
+               end) (m_att_defs d x) (el_attrs x).
+
+(** the element as the accessors of xml-info present it: every function above this section reads the
+    declarations through [namespace_attributes] and the attributes through [attributes] *)
+Definition m_default_elem (d : nsdtd) (x : elem) : elem :=
+  {| el_name := el_name x; el_decls := m_namespace_attributes d x; el_attrs := m_attributes d x |}.
+Fixpoint m_default_tree (d : nsdtd) (t : tree) : tree :=
+  match t with Node x kids => Node (m_default_elem d x) (map (m_default_tree d) kids) end.
+
+Definition model_ddoc (d : nsdtd) (t : tree) : list (option m_obs) := model_doc (m_default_tree d t).
+Definition model_dselect (b : bindings) (t : nametest) (attrs : bool) (d : nsdtd) (doc : tree) : option (list noderef) :=
+  model_select b t attrs (m_default_tree d doc).
